@@ -29,6 +29,8 @@ ENV_ATTRS = {"_K": "(V.int env.K)", "_rows": "(V.int env.rows)", "_cols": "(V.in
 
 
 class Fn:
+    object_mode = False
+
     def __init__(self, lean_name, node, nb_param, methods):
         self.lean_name = lean_name
         self.node = node
@@ -67,9 +69,13 @@ class Fn:
             raise Unsupported("tuple of %d elements" % len(parts))
         if isinstance(n, ast.BinOp):
             op = {ast.Add: "V.add", ast.Sub: "V.sub", ast.Mult: "V.mul"}.get(type(n.op))
+            if not op and self.object_mode:
+                op = {ast.FloorDiv: "V.floordiv", ast.Mod: "V.mod", ast.BitXor: "V.xor"}.get(type(n.op))
             if not op:
                 raise Unsupported("operator " + type(n.op).__name__)
             return "(%s %s %s)" % (op, self.E(n.left), self.E(n.right))
+        if isinstance(n, ast.IfExp) and self.object_mode:
+            return "(if %s then %s else %s)" % (self.B(n.test), self.E(n.body), self.E(n.orelse))
         if isinstance(n, (ast.Compare, ast.BoolOp)) or (isinstance(n, ast.UnaryOp) and isinstance(n.op, ast.Not)):
             return "(V.bool %s)" % self.B(n)
         if isinstance(n, ast.Call):
@@ -237,6 +243,318 @@ class Fn:
         return "\n".join(lines)
 
 
+class ObjFn(Fn):
+    """A method that reads and writes `self` attributes: translated to `Env -> Obj -> args -> V x Obj`.
+
+    obj = dict(type=<Lean structure>, attrs={python attribute: (lean field, kind)}, shuffle=<attribute shuffled by
+    np.random.shuffle or None>, inner=<attribute holding the wrapped rule or None>); kinds: int, bool, vlist (list of
+    cell identities), ints (integer array). Sibling-method calls are hoisted out of the expression they occur in, which
+    is only sound when the call is the first thing the expression evaluates: anything else is Unsupported."""
+    object_mode = True
+
+    def __init__(self, lean_name, node, nb_param, methods, obj):
+        super().__init__(lean_name, node, nb_param, methods)
+        self.obj = obj
+        self.k = 0
+        self.hoisted = {}
+        self.kinds = dict(obj.get("params", {}))       # local / parameter name -> V | ints | ints2
+
+    def attr(self, n):
+        if isinstance(n, ast.Attribute) and isinstance(n.value, ast.Name) and n.value.id == "self" and n.attr in self.obj["attrs"]:
+            return self.obj["attrs"][n.attr]
+        return None
+
+    def kind(self, name):
+        return self.kinds.get(name, "V")
+
+    def IE(self, n):
+        """An expression denoting an integer array (Lean `List Int`), or None."""
+        if isinstance(n, ast.Name) and self.kind(n.id) == "ints":
+            return "v_" + n.id
+        if isinstance(n, ast.Subscript) and isinstance(n.value, ast.Name) and self.kind(n.value.id) == "ints2" \
+                and isinstance(n.slice, ast.Constant) and isinstance(n.slice.value, int) and n.slice.value >= 0:
+            return "(v_%s.getD %d [])" % (n.value.id, n.slice.value)
+        if isinstance(n, ast.Subscript) and self.is_nb(n.value) and isinstance(n.slice, ast.Slice) and n.slice.step is None:
+            lo, hi = n.slice.lower, n.slice.upper
+            if lo is not None and hi is not None:
+                return "(Py.slice env.nbList %s.toInt %s.toInt)" % (self.E(lo), self.E(hi))
+            if lo is not None:
+                return "(Py.sliceFrom env.nbList %s.toInt)" % self.E(lo)
+            if hi is not None:
+                return "(Py.sliceTo env.nbList %s.toInt)" % self.E(hi)
+            return "env.nbList"
+        return None
+
+    def is_nb(self, n):
+        return isinstance(n, ast.Name) and n.id == self.nb
+
+    def E(self, n):
+        if id(n) in self.hoisted:
+            return self.hoisted[id(n)]
+        a = self.attr(n)
+        if a:
+            f, kind = a
+            if kind == "int":
+                return "(V.int self.%s)" % f
+            if kind == "bool":
+                return "(V.bool self.%s)" % f
+            raise Unsupported("attribute %s used as a value" % n.attr)
+        return super().E(n)
+
+    def subscript(self, n):
+        a = self.attr(n.value)
+        if a and a[1] == "ints2":
+            if isinstance(n.slice, ast.Tuple) and len(n.slice.elts) == 2:
+                return "(V.mat2Get self.%s %s %s)" % (a[0], self.E(n.slice.elts[0]), self.E(n.slice.elts[1]))
+            raise Unsupported("2-D array indexed otherwise than [i, j]")
+        if not isinstance(n.slice, ast.Slice):
+            ie = self.IE(n.value)
+            if ie and not self.is_nb(n.value):
+                return "(V.intsGet %s %s)" % (ie, self.E(n.slice))
+        if a:
+            f, kind = a
+            if kind == "vlist":
+                return "(V.listGet self.%s %s)" % (f, self.E(n.slice))
+            if kind == "ints":
+                return "(V.intsGet self.%s %s)" % (f, self.E(n.slice))
+            raise Unsupported("subscript of attribute " + n.value.attr)
+        # n.shape[i]
+        if isinstance(n.value, ast.Attribute) and self.is_nb(n.value.value) and n.value.attr == "shape" \
+                and isinstance(n.slice, ast.Constant) and n.slice.value in (0, 1):
+            return "(V.int env.%s)" % ("nbRows" if n.slice.value == 0 else "nbCols")
+        # n[e] / n[e1][e2] with computed indices
+        if self.is_nb(n.value):
+            return "(V.int (env.nb1 %s.toInt))" % self.E(n.slice)
+        if isinstance(n.value, ast.Subscript) and self.is_nb(n.value.value):
+            i, j = n.value.slice, n.slice
+            if isinstance(i, ast.Constant) and isinstance(j, ast.Constant):
+                return super().subscript(n)
+            return "(V.int (env.nbI %s.toInt %s.toInt))" % (self.E(i), self.E(j))
+        return super().subscript(n)
+
+    def call(self, n):
+        f = n.func
+        if isinstance(f, ast.Name) and f.id == "len" and len(n.args) == 1:
+            x = n.args[0]
+            a = self.attr(x)
+            if a and a[1] in ("vlist", "ints"):
+                return "(V.int self.%s.length)" % a[0]
+            if self.is_nb(x):
+                return "(V.int env.nbLen)"
+            if isinstance(x, ast.Name) and self.kind(x.id) == "ints2":
+                return "(V.int v_%s.length)" % x.id
+            if self.IE(x):
+                return "(V.int %s.length)" % self.IE(x)
+            if isinstance(x, ast.Attribute) and self.is_nb(x.value) and x.attr == "shape":
+                return "(V.int env.nbDim)"
+            raise Unsupported("len of " + ast.dump(x))
+        if isinstance(f, ast.Name) and f.id == "nks_rule" and len(n.args) == 2 and self.is_nb(n.args[0]):
+            return "(env.nksRule %s.toInt)" % self.E(n.args[1])
+        if isinstance(f, ast.Attribute) and isinstance(f.value, ast.Name) and f.value.id == "self":
+            if f.attr == self.obj.get("inner"):
+                want = [a.arg for a in self.node.args.args if a.arg != "self"]
+                got = [a.id if isinstance(a, ast.Name) else None for a in n.args]
+                if got != want or n.keywords:
+                    raise Unsupported("wrapped rule called with other arguments than the method's own")
+                return "env.applyRule"
+            if f.attr in self.methods:
+                raise Unsupported("sibling method call in a position where it cannot be hoisted")
+        return super().call(n)
+
+    def B(self, n):
+        if id(n) in self.hoisted:
+            return "(V.truthy %s)" % self.hoisted[id(n)]
+        if isinstance(n, ast.Compare) and len(n.ops) == 1 and isinstance(n.ops[0], (ast.In, ast.NotIn)):
+            a = self.attr(n.comparators[0])
+            if a and a[1] == "vlist":
+                return "(%s(V.mem %s self.%s))" % ("!" if isinstance(n.ops[0], ast.NotIn) else "", self.E(n.left), a[0])
+        return super().B(n)
+
+    def sibling(self, n):
+        return isinstance(n, ast.Call) and isinstance(n.func, ast.Attribute) and isinstance(n.func.value, ast.Name) \
+            and n.func.value.id == "self" and n.func.attr in self.methods
+
+    def hoist(self, expr, pad, out):
+        """If the first thing `expr` evaluates is a sibling-method call, emit it as its own step."""
+        n = expr
+        while isinstance(n, ast.UnaryOp) and isinstance(n.op, ast.Not):
+            n = n.operand
+        if self.sibling(n):
+            self.k += 1
+            args = " ".join(self.E(a) for a in n.args if not self.is_nb(a))
+            out.append("%slet r_%d := %s env self %s" % (pad, self.k, self.methods[n.func.attr], args))
+            out.append("%sself := r_%d.2" % (pad, self.k))
+            self.hoisted[id(n)] = "r_%d.1" % self.k
+
+    def conv(self, kind, e):
+        if kind == "int":
+            return "%s.toInt" % e
+        if kind == "bool":
+            return "(V.truthy %s)" % e
+        raise Unsupported("assignment to a %s attribute" % kind)
+
+    def assigned(self, body, acc):
+        for s in body:
+            if isinstance(s, (ast.Assign, ast.AugAssign)):
+                t = s.targets[0] if isinstance(s, ast.Assign) else s.target
+                if self.attr(t) or (isinstance(t, ast.Subscript) and self.attr(t.value)):
+                    continue
+                if isinstance(s, ast.Assign) and isinstance(t, ast.Name) and self.IE(s.value):
+                    continue
+                super().assigned([s], acc)
+            elif isinstance(s, ast.If):
+                self.assigned(s.body, acc)
+                self.assigned(s.orelse, acc)
+            elif isinstance(s, ast.For):
+                self.assigned(s.body, acc)
+        return acc
+
+    def S(self, body, ind):
+        out = []
+        pad = "  " * ind
+        for s in body:
+            if isinstance(s, ast.Expr) and isinstance(s.value, ast.Constant):
+                continue
+            if isinstance(s, ast.Expr) and isinstance(s.value, ast.Call):
+                c = s.value
+                if self.sibling(c):
+                    self.hoist(c, pad, out)
+                    continue
+                f = c.func
+                if isinstance(f, ast.Attribute) and f.attr == "shuffle" and isinstance(f.value, ast.Attribute) \
+                        and f.value.attr == "random" and isinstance(f.value.value, ast.Name) and f.value.value.id == "np" \
+                        and len(c.args) == 1 and self.attr(c.args[0]) and c.args[0].attr == self.obj.get("shuffle"):
+                    out.append("%sself := self.shuffle" % pad)
+                    continue
+                raise Unsupported("expression statement " + ast.dump(c.func))
+            if isinstance(s, ast.Assign) and len(s.targets) == 1:
+                t = s.targets[0]
+                self.hoist(s.value, pad, out)
+                if self.attr(t) and self.attr(t)[1] == "ints2":
+                    v = s.value      # np.zeros((a, b), dtype=...)
+                    if isinstance(v, ast.Call) and isinstance(v.func, ast.Attribute) and v.func.attr == "zeros" \
+                            and isinstance(v.func.value, ast.Name) and v.func.value.id == "np" and len(v.args) == 1 \
+                            and isinstance(v.args[0], ast.Tuple) and len(v.args[0].elts) == 2 \
+                            and all(k.arg == "dtype" for k in v.keywords):
+                        out.append("%sself := { self with %s := V.zeros2 %s %s }" % (
+                            pad, self.attr(t)[0], self.E(v.args[0].elts[0]), self.E(v.args[0].elts[1])))
+                        continue
+                    raise Unsupported("assignment to a 2-D array attribute")
+                if isinstance(t, ast.Subscript) and self.attr(t.value) and self.attr(t.value)[1] == "ints2":
+                    if not (isinstance(t.slice, ast.Tuple) and len(t.slice.elts) == 2):
+                        raise Unsupported("2-D array item assignment otherwise than [i, j]")
+                    f = self.attr(t.value)[0]
+                    out.append("%sself := { self with %s := V.mat2Set self.%s %s %s %s }" % (
+                        pad, f, f, self.E(t.slice.elts[0]), self.E(t.slice.elts[1]), self.E(s.value)))
+                    continue
+                if isinstance(t, ast.Name) and self.IE(s.value):
+                    self.kinds[t.id] = "ints"
+                    out.append("%slet v_%s := %s" % (pad, t.id, self.IE(s.value)))
+                    continue
+                if self.attr(t):
+                    f, kind = self.attr(t)
+                    out.append("%sself := { self with %s := %s }" % (pad, f, self.conv(kind, self.E(s.value))))
+                    continue
+                if isinstance(t, ast.Subscript) and self.attr(t.value):
+                    f, kind = self.attr(t.value)
+                    if kind != "ints":
+                        raise Unsupported("item assignment on a %s attribute" % kind)
+                    out.append("%sself := { self with %s := V.intsSet self.%s %s %s }" % (pad, f, f, self.E(t.slice), self.E(s.value)))
+                    continue
+                out.append("%sv_%s := %s" % (pad, t.id, self.E(s.value)))
+                continue
+            if isinstance(s, ast.AugAssign) and isinstance(s.target, ast.Subscript) and self.attr(s.target.value) \
+                    and self.attr(s.target.value)[1] == "ints2":
+                t = s.target
+                op = {ast.Add: "V.add", ast.Sub: "V.sub", ast.Mult: "V.mul"}.get(type(s.op))
+                if not op or not (isinstance(t.slice, ast.Tuple) and len(t.slice.elts) == 2):
+                    raise Unsupported("augmented 2-D array item assignment form")
+                f = self.attr(t.value)[0]
+                i, j = self.E(t.slice.elts[0]), self.E(t.slice.elts[1])
+                out.append("%sself := { self with %s := V.mat2Set self.%s %s %s (%s (V.mat2Get self.%s %s %s) %s) }" % (
+                    pad, f, f, i, j, op, f, i, j, self.E(s.value)))
+                continue
+            if isinstance(s, ast.For) and not s.orelse:
+                it = s.iter
+                # for p in P   (P: list of integer arrays)
+                if isinstance(s.target, ast.Name) and isinstance(it, ast.Name) and self.kind(it.id) == "ints2":
+                    self.kinds[s.target.id] = "ints"
+                    out.append("%sfor v_%s in v_%s do" % (pad, s.target.id, it.id))
+                    out += self.S(s.body, ind + 1)
+                    continue
+                # for i in range(e)
+                if isinstance(s.target, ast.Name) and isinstance(it, ast.Call) and isinstance(it.func, ast.Name) \
+                        and it.func.id == "range" and len(it.args) == 1:
+                    out.append("%sfor k_%s in List.range %s.toInt.toNat do" % (pad, s.target.id, self.E(it.args[0])))
+                    out.append("%s  let v_%s := V.int (k_%s : Int)" % (pad, s.target.id, s.target.id))
+                    out += self.S(s.body, ind + 1)
+                    continue
+                # for j, x in enumerate(<integer array>)
+                if isinstance(s.target, ast.Tuple) and len(s.target.elts) == 2 and all(isinstance(e, ast.Name) for e in s.target.elts) \
+                        and isinstance(it, ast.Call) and isinstance(it.func, ast.Name) and it.func.id == "enumerate" \
+                        and len(it.args) == 1 and self.IE(it.args[0]):
+                    self.k += 1
+                    q = "q_%d" % self.k
+                    out.append("%sfor %s in %s.zipIdx do" % (pad, q, self.IE(it.args[0])))
+                    out.append("%s  let v_%s := V.int (%s.2 : Int)" % (pad, s.target.elts[0].id, q))
+                    out.append("%s  let v_%s := V.int %s.1" % (pad, s.target.elts[1].id, q))
+                    out += self.S(s.body, ind + 1)
+                    continue
+                raise Unsupported("for form " + ast.dump(s.iter)[:80])
+            if isinstance(s, ast.AugAssign) and not self.attr(s.target) and isinstance(s.target, ast.Name):
+                op = {ast.Add: "V.add", ast.Sub: "V.sub", ast.Mult: "V.mul"}.get(type(s.op))
+                if not op:
+                    raise Unsupported("augmented operator")
+                out.append("%sv_%s := %s v_%s %s" % (pad, s.target.id, op, s.target.id, self.E(s.value)))
+                continue
+            if isinstance(s, ast.AugAssign) and self.attr(s.target):
+                f, kind = self.attr(s.target)
+                op = {ast.Add: "V.add", ast.Sub: "V.sub", ast.Mult: "V.mul"}.get(type(s.op))
+                if not op or kind != "int":
+                    raise Unsupported("augmented assignment on attribute")
+                out.append("%sself := { self with %s := (%s (V.int self.%s) %s).toInt }" % (pad, f, op, f, self.E(s.value)))
+                continue
+            if isinstance(s, ast.If):
+                self.hoist(s.test, pad, out)
+                out.append("%sif %s then" % (pad, self.B(s.test)))
+                out += self.S(s.body, ind + 1) or [pad + "  pure ()"]
+                if s.orelse:
+                    out.append(pad + "else")
+                    out += self.S(s.orelse, ind + 1) or [pad + "  pure ()"]
+                continue
+            if isinstance(s, ast.Return):
+                if s.value is not None:
+                    self.hoist(s.value, pad, out)
+                out.append("%sreturn (%s, self)" % (pad, self.E(s.value) if s.value is not None else "V.none"))
+                continue
+            if isinstance(s, ast.Raise):
+                out.append("%sreturn (V.err, self)" % pad)
+                continue
+            if isinstance(s, ast.Pass):
+                out.append(pad + "pure ()")
+                continue
+            raise Unsupported("statement " + type(s).__name__)
+        return out
+
+    def render(self):
+        names = sorted(self.assigned(self.node.body, set()))
+        params = [p for p in self.params if p != self.nb]
+        lean_ty = {"V": "V", "ints": "List Int", "ints2": "List (List Int)"}
+        sig = "def %s (env : Env) (self0 : %s)%s : V × %s := Id.run do" % (
+            self.lean_name, self.obj["type"], "".join(" (v_%s : %s)" % (p, lean_ty[self.kind(p)]) for p in params), self.obj["type"])
+        lines = [sig, "  let mut self := self0"]
+        for nm in names:
+            if nm not in params:
+                lines.append("  let mut v_%s := V.none" % nm)
+        for p in params:
+            if p in names:
+                lines.append("  let mut v_%s := v_%s" % (p, p))
+        lines += self.S(self.node.body, 1)
+        if not isinstance(self.node.body[-1], (ast.Return, ast.Raise)):
+            lines.append("  return (V.none, self)")
+        return "\n".join(lines)
+
+
 def find(tree, cls, func):
     for n in tree.body:
         if cls is None and isinstance(n, ast.FunctionDef) and n.name == func:
@@ -259,6 +577,29 @@ TARGETS = [
     ("sandpileCall", "sandpile.py", "Sandpile", "__call__", "n", {"_is_in_boundary": "sandpileInBoundary"}),
 ]
 
+ASYNC = dict(type="AsyncObj", shuffle="_update_order", inner="_apply_rule",
+             attrs={"_update_order": ("order", "vlist"), "_curr": ("curr", "int"), "_num_applied": ("numApplied", "int"),
+                    "_randomize_each_cycle": ("randomize", "bool")})
+REV = dict(type="RevObj", attrs={"_previous_state": ("prev", "ints"), "_rule_number": ("ruleNumber", "int")})
+ASYNC_METHODS = {"_in_update_order": "asyncInUpdateOrder", "_should_update": "asyncShouldUpdate",
+                 "_check_for_end_of_cycle": "asyncCheckEnd", "_current_cell_value": "asyncCurrentValue",
+                 "_shuffle_update_order": "asyncShuffle"}
+
+# methods with object state: lean name, file, class, method, neighbourhood parameter, sibling methods, object description
+HOP = dict(type="HopObj", attrs={"_W": ("W", "ints2"), "_r": ("r", "int")}, params={"P": "ints2"})
+
+OBJ_TARGETS = [
+    ("hopTrain", "hopfield_net.py", "HopfieldNet", "train", None, {}, HOP),
+    ("hopRule", "hopfield_net.py", "HopfieldNet", "_rule", "n", {}, HOP),
+    ("asyncShuffle", "ca_functions.py", "AsynchronousRule", "_shuffle_update_order", None, {}, ASYNC),
+    ("asyncInUpdateOrder", "ca_functions.py", "AsynchronousRule", "_in_update_order", "n", {}, ASYNC),
+    ("asyncShouldUpdate", "ca_functions.py", "AsynchronousRule", "_should_update", "n", {}, ASYNC),
+    ("asyncCheckEnd", "ca_functions.py", "AsynchronousRule", "_check_for_end_of_cycle", None, ASYNC_METHODS, ASYNC),
+    ("asyncCurrentValue", "ca_functions.py", "AsynchronousRule", "_current_cell_value", "n", {}, ASYNC),
+    ("asyncCall", "ca_functions.py", "AsynchronousRule", "__call__", "n", ASYNC_METHODS, ASYNC),
+    ("revCall", "ca_functions.py", "ReversibleRule", "__call__", "n", {}, REV),
+]
+
 HEADER = '''import Cpl.PyV
 /-! GENERATED by tools/py2lean.py from /repo/cellpylib on every run. Do not edit. -/
 
@@ -276,6 +617,26 @@ structure Env where
   cols : Int := 0
   closed : Bool := false
   grains : List (V × V) := []        -- (cell_index, timestep)
+  -- for translated methods (Cpl/Gen/Objects.lean): a neighbourhood of any shape, and calls that leave the subset
+  nbDim : Int := 2                   -- len(n.shape)
+  nbLen : Int := 0                   -- len(n)
+  nbRows : Int := 0                  -- n.shape[0]
+  nbCols : Int := 0                  -- n.shape[1]
+  nb1 : Int → Int := fun _ => 0      -- n[i]     (1-D)
+  nbI : Int → Int → Int := fun _ _ => 0   -- n[i][j]  (2-D, computed indices)
+  applyRule : V := V.none            -- self._apply_rule(n, c, t): the wrapped rule's answer for this call
+  nksRule : Int → V := fun _ => V.none    -- nks_rule(n, R)
+  nbList : List Int := []            -- the 1-D neighbourhood as a list (slices)
+'''
+
+OBJ_HEADER = '''import Cpl.Gen.Rules
+import Cpl.PyObj
+import Cpl.Py
+/-! GENERATED by tools/py2lean.py from /repo/cellpylib on every run. Do not edit.
+Methods with object state: `Env → Obj → args → V × Obj` (see Cpl/PyObj.lean). -/
+
+namespace Cpl.Gen
+open Cpl
 '''
 
 
@@ -308,6 +669,35 @@ def main():
     old = open(path).read() if os.path.exists(path) else None
     if old != text:
         open(path, "w").write(text)
+    # ---- methods with object state
+    oparts = [OBJ_HEADER]
+    ostatus = {}
+    for (lean_name, f, cls, func, nbp, methods, obj) in OBJ_TARGETS:
+        try:
+            tree = ast.parse(open(os.path.join(a.repo, "cellpylib", f)).read())
+            node = find(tree, cls, func)
+            missing = [m for m in methods.values() if m != lean_name and ostatus.get(m) != "translated" and
+                       any(isinstance(x, ast.Attribute) and isinstance(x.value, ast.Name) and x.value.id == "self"
+                           and methods.get(x.attr) == m for x in ast.walk(node))]
+            if missing:
+                raise Unsupported("calls untranslated method(s) " + ", ".join(missing))
+            oparts.append("/-- `%s.%s` (%s), translated statement by statement. -/\n%s" % (
+                cls, func, f, ObjFn(lean_name, node, nbp, methods, obj).render()))
+            ostatus[lean_name] = "translated"
+        except Unsupported as e:
+            ostatus[lean_name] = "untranslated: %s" % e
+            oparts.append("-- %s: UNTRANSLATED (%s)" % (lean_name, e))
+        except Exception as e:  # noqa
+            ostatus[lean_name] = "untranslated: %s: %s" % (type(e).__name__, e)
+            oparts.append("-- %s: UNTRANSLATED (%s)" % (lean_name, e))
+    oparts.append("/-- Which methods were translated in this run. -/\ndef translatedMethods : List String := [%s]" % ", ".join(
+        '"%s"' % k for k, v in ostatus.items() if v == "translated"))
+    oparts.append("end Cpl.Gen")
+    otext = "\n\n".join(oparts) + "\n"
+    opath = os.path.join(a.out, "Objects.lean")
+    if (open(opath).read() if os.path.exists(opath) else None) != otext:
+        open(opath, "w").write(otext)
+    status.update(ostatus)
     print("py2lean: " + "; ".join("%s %s" % (k, v) for k, v in status.items()))
     sys.exit(0)
 
